@@ -270,7 +270,8 @@ func VerifC18Syntax() {
 		run = func() { c.Rename(a, b) }
 	case 3:
 		ref, pat := c18str(k, 0, 0), c18str(k, long, front)
-		args, mailboxArg = []string{ref, pat}, []bool{true, false}
+		// (the pattern is a mailbox name too: sent in modified UTF-7 since e645283)
+		args, mailboxArg = []string{ref, pat}, []bool{true, true}
 		run = func() { c.List(ref, pat, nil) }
 	case 4:
 		s := c18str(k, long, front)
